@@ -28,6 +28,8 @@ def register(reg):
                       'called inside the lock"); acquire(False) failing therefore means the body is running',
                       'async_raise is used by contract (ghost counter of raises)'],
   }
+  reg.replayers['KillableThread.kill'] = replay_kill
+  reg.replayers['KillableThread.run'] = replay_kill
   c = reg.contract(T, 'KillableThread.async_raise', props=())
   c.param('exc_type', 'val')
   c.modifies()
@@ -69,3 +71,35 @@ def register(reg):
                                                ('the_body_runs_at_most_once', "ghost('proc.n') <= old(ghost('proc.n')) + 1"),
                                                ('a_kill_requested_before_the_start_prevents_the_body', "implies(old(self._killed.is_set()), ghost('proc.n') == old(ghost('proc.n')))")])
   c.modifies('*user')
+
+
+def replay_kill(model, ob):
+  """kill() on a thread that has not started / has finished / is running: the request must always be recorded, and a
+  kill before start must keep the body from running."""
+  import threading
+  from openhtf.util import threads as T_
+  out = {'scenarios': []}
+  bad = False
+
+  class Body(T_.KillableThread):
+    def __init__(self):
+      super(Body, self).__init__(name='replay')
+      self.ran = False
+
+    def _thread_proc(self):
+      self.ran = True
+  t = Body()
+  t.kill()
+  recorded = t._killed.is_set()
+  t.start(); t.join(5)
+  if not recorded or t.ran:
+    bad = True
+    out['scenarios'].append({'kill before start': {'request recorded': recorded, 'body ran afterwards': t.ran}})
+  t2 = Body()
+  t2.start(); t2.join(5)
+  t2.kill()
+  if not t2._killed.is_set() or not t2.ran:
+    bad = True
+    out['scenarios'].append({'kill after the thread finished': {'request recorded': t2._killed.is_set(), 'body had run': t2.ran}})
+  out['reproduced'] = bad
+  return out
